@@ -3608,6 +3608,32 @@ def _sink_build_block(blk, i, k, x):
     return True
 
 
+def _basic_index_chain(fn, tgt):
+    """Every subscript on the way to the target is a constant, a slice or a
+    for-loop variable (an integer / key, never a mask or an index array)."""
+    loopvars = set()
+    for n in _own_nodes(fn):
+        if isinstance(n, (ast.For, ast.comprehension)):
+            loopvars |= {y.id for y in ast.walk(n.target)
+                         if isinstance(y, ast.Name)}
+    t = tgt
+    while isinstance(t, (ast.Subscript, ast.Attribute)):
+        if isinstance(t, ast.Subscript):
+            elts = t.slice.elts if isinstance(t.slice, ast.Tuple) \
+                else [t.slice]
+            for e in elts:
+                if isinstance(e, (ast.Constant, ast.Slice)):
+                    continue
+                if isinstance(e, ast.Name) and e.id in loopvars:
+                    continue
+                if isinstance(e, ast.UnaryOp) and isinstance(
+                        e.operand, ast.Constant):
+                    continue
+                return False
+        t = t.value
+    return True
+
+
 def _dissolve_built_locals(fn, rf, log, q):
     """`X = D; X[i] = ...; T = X`  ->  `T = D; T[i] = ...` for a local X the
     reference does not know (a container built in a local and stored)."""
@@ -3632,6 +3658,15 @@ def _dissolve_built_locals(fn, rf, log, q):
                 continue
             k, fin = finals[0]
             tgt = fin.targets[0]
+            # if X is modified between its definition and the store, reading
+            # it back through T must give the same object: an index that may
+            # be a mask / index array makes `T[...]` a copy, and the
+            # modification would be lost in the rewritten program
+            if any(isinstance(n, ast.Name) and n.id == x and isinstance(
+                    n.ctx, (ast.Store, ast.Load)) and s_ is not fin
+                    for s_ in blk[i + 1:k] for n in ast.walk(s_)) and \
+                    not _basic_index_chain(fn, tgt):
+                continue
             # X is used only in this block, from its definition on; T is not
             # re-bound after the store (X and T stay the same object)
             uses = [n for n in _own_nodes(fn) if isinstance(n, ast.Name)
